@@ -97,24 +97,25 @@ EXTRA = {
 }
 # additions of seeding rounds i-k (DESIGN.md §8.7)
 EXTRA2 = {
- "C01": " After the first result grows by two Push calls the same route builds the geometry a second time (constructors do not depend on what became of earlier results).",
+ "C16": " A clone taken while an end-offset write stands (upwards, or the last offset downwards) equals its source in every stored bit.",
+ "C01": " After the first result grows by two Push calls the same route builds the geometry a second time (constructors do not depend on what became of earlier results). Route reset-twin: the receiver first holds the same coordinates with zeros of the other sign and NaNs of another payload.",
  "C02": " Receivers start from any constructor (flat, flat without ends, SetCoords, Push, Clone, WKB decode) holding 0-3 parts; a part accessor's result is pushed back onto its own receiver (the last polygon optionally grown first); after every step new values are built by the plain constructors and compared with the model; collection arguments are passed in a slice with spare room that the caller refills; a receiver without a layout refuses every part.",
  "C03": " Reader kinds include a *bufio.Reader with buffer sizes 16..4097 over a splitting reader; writers that fail once and work again; the geometry under 5-130 nested collections; a sibling of the case (same structure and emptiness, other ordinates, SRIDs and byte order) is decoded by every route before retained results are looked at again; returned byte slices are overwritten by the caller and Marshal asked again.",
- "C04": " Class atlimit (long first components, a count raised exactly to its limit); a sibling of the decoded geometry is marshalled and decoded before the decoded geometry is compared with its earlier self.",
- "C05": " The geometry under 5-257 nested collections; one Encoder value per case.",
- "C06": " Unclosed rings also miss closure by 1-8 ulps, a relative 1e-15..1e-6 or a denormal; number literals at the limits of machine integers.",
- "C07": " Property keys include the names GeoJSON uses elsewhere; collections are decoded into a value that held another collection; a grammar for the legacy crs member (named/linked, short/URN/URL names complete and cut short, wrong JSON types) on documents, nested geometries and features; deep nesting; returned bytes overwritten and Marshal asked again.",
- "C08": " The box the caller extended is itself compared with the model; SRIDs (well-known codes included) are drawn; bounds are asked three times before the in-place rewrite.",
+ "C04": " Class atlimit (long first components, a count raised exactly to its limit); a sibling of the decoded geometry is marshalled and decoded before the decoded geometry is compared with its earlier self. Forged counts include those at which a product with a stride or an element size first passes 2^31 or 2^32.",
+ "C05": " The geometry under 5-257 nested collections; one Encoder value per case. All 1482 collection trees of depth <= 3 and width <= 2 over member-less collections with and without a layout, points and an empty line (one layout per tree); SRIDs are drawn (and must not matter); a sibling of the case is parsed before the retained result is looked at again.",
+ "C06": " Unclosed rings also miss closure by 1-8 ulps, a relative 1e-15..1e-6 or a denormal; number literals at the limits of machine integers. One token mutant in six is wrapped in what other software writes around WKT (EWKT SRID prefixes whole, cut short and misspelt, quotes, casts, a function call, a byte-order mark).",
+ "C07": " Property keys include the names GeoJSON uses elsewhere; collections are decoded into a value that held another collection; a grammar for the legacy crs member (named/linked, short/URN/URL names complete and cut short, wrong JSON types) on documents, nested geometries and features; deep nesting; returned bytes overwritten and Marshal asked again. Collections of 60-300 members with 0-3 unusable ones; a call parked on a channel, lock or wait group for ten seconds without CPU is reported as a deadlock; SRIDs are drawn; a sibling of the case is decoded before the retained result is looked at again.",
+ "C08": " The box the caller extended is itself compared with the model; SRIDs (well-known codes included) are drawn; bounds are asked three times before the in-place rewrite. Each box is also tested against itself (one object on both sides).",
  "C09": " fixedpoint class (whole numbers over the int16/int32/2^53 range) and integer-edge floats; SRIDs (geographic codes included) are drawn; measured three times before the in-place exchange.",
- "C10": " Class filter-edge: differences that round by half an ulp in a chosen direction with a determinant of the order of 2^-52 of its products.",
- "C11": " Asked three times before the ring's array is refilled.",
- "C12": " The same four points paired into segments the other two ways, each against its own exact answer, then as given once more.",
+ "C10": " Class filter-edge: differences that round by half an ulp in a chosen direction with a determinant of the order of 2^-52 of its products. The three arguments are also passed as windows of one flat array in all six layouts (same answer, array untouched).",
+ "C11": " Asked three times before the ring's array is refilled. A vertex of the ring's own array is passed as the query point.",
+ "C12": " The same four points paired into segments the other two ways, each against its own exact answer, then as given once more. Class near-endpoint (an end point of one segment computed onto the other and nudged by up to 3 ulps, half of the cases moved to the origin where the envelope fall-back is reached); every call's arguments are compared bitwise afterwards; end points are also passed as windows of one array.",
  "C13": " Zeros written as -0; five in nine cases put the set in ascending or descending (x,y)/(y,x) order with or without duplicates; the array is handed over three times, then refilled keeping its first and last point, then refilled entirely.",
- "C14": " The centroid calculators used directly; points, lines, rings and polygons of 1023..5000 (thorough: ..65537) vertices; tolerance 3x the forward rounding bound.",
- "C15": " After the whole line, shorter beginnings of it; the same slice asked three more times, then its interior vertices moved in place, then all; zig-zags of 4097..262145 vertices with the nearest point at block seams.",
- "C17": " decode.Truncated and exact.Burst call groups; kml.Encode also on geometries with empty parts.",
- "C18": " The same digit limit reached four ways: NewEncoder(option), the option applied to an existing encoder, over another limit already used, on the zero Encoder.",
- "C19": " Every stream is read again through readers that deliver one byte at a time, half of what is asked for, the last bytes together with io.EOF, pieces, and a 16-byte *bufio.Reader; results must equal the in-memory read.",
+ "C14": " The centroid calculators used directly; points, lines, rings and polygons of 1023..5000 (thorough: ..65537) vertices; tolerance 3x the forward rounding bound. Every function is asked again after the caller overwrote the coordinate returned before; geometries carry SRIDs.",
+ "C15": " After the whole line, shorter beginnings of it; the same slice asked three more times, then its interior vertices moved in place, then all; zig-zags of 4097..262145 vertices with the nearest point at block seams. Point and segment functions also get their arguments as windows of one flat array.",
+ "C17": " decode.Truncated and exact.Burst call groups; kml.Encode also on geometries with empty parts. TestExhaustiveStress: 16 goroutines x 1500 filter-undecidable inputs x {orientation, ring, intersect, crossing (built to reach the central-endpoint fall-back), hull}, every result compared with the call run alone and every input compared bitwise afterwards; also under the race detector.",
+ "C18": " The same digit limit reached four ways: NewEncoder(option), the option applied to an existing encoder, over another limit already used, on the zero Encoder. Digit limits up to 340; SRIDs are drawn.",
+ "C19": " Every stream is read again through readers that deliver one byte at a time, half of what is asked for, the last bytes together with io.EOF, pieces, and a 16-byte *bufio.Reader; results must equal the in-memory read. The same Encoder encodes the track twice more (every call writes a complete stream).",
  "C20": " The caller overwrites every returned index list; the array is simplified three times, refilled keeping its first and last point, then refilled with the reversed, transposed line.",
 }
 PENDING_REASON = "check not built yet in this session (planned, see DESIGN.md §4); not claimed until its harness package exists"
